@@ -149,6 +149,8 @@ def gen(rng, tier):
         for gz in (False, True):
             for pre in (False, True):
                 cases.append({"k": "process", "bs": bs, "gz": gz, "n": 3, "pre": pre})
+                # item rows appended but not committed when processing starts
+                cases.append({"k": "process", "bs": bs, "gz": gz, "n": 2, "pre": pre, "pending": 2})
     return cases
 
 
@@ -307,15 +309,17 @@ def _run_process(c):
             tsdb.write(d, 'parse', [(9, 9, 9, 9)], sch['parse'], gzip=c["gz"])
             tsdb.write(d, 'result', [(9, 0, 'old')], sch['result'], gzip=c["gz"])
         ts = itsdb.TestSuite(d)
+        if c.get("pending"):
+            ts['item'].extend([(c["n"] + 3 + j, 'p%d' % j) for j in range(c["pending"])])
         ts.process(P(), buffer_size=c["bs"], gzip=c["gz"])
-        mem = {n: [list(r.data) for r in ts[n]] for n in ('parse', 'result', 'run')}
+        mem = {n: [list(r.data) for r in ts[n]] for n in ('parse', 'result', 'run', 'item')}
         intx = ts.in_transaction
         try:
             ts.commit()
             err = None
         except Exception as e:
             err = type(e).__name__
-        disk = {n: [list(r.data) for r in itsdb.TestSuite(d)[n]] for n in ('parse', 'result', 'run')}
+        disk = {n: [list(r.data) for r in itsdb.TestSuite(d)[n]] for n in ('parse', 'result', 'run', 'item')}
         return {"mem": mem, "intx": intx, "err": err, "disk": disk}
     finally:
         shutil.rmtree(d, ignore_errors=True)
@@ -358,9 +362,12 @@ def _list_apply(lst, committed, o):
 def oracle(c):
     if c["k"] == "process":
         r = _run_process(c)
-        want_parse = [[str(i), "0", str(i), str(i % 3)] for i in range(c["n"])]
-        want_result = [[str(i), str(j), "m%d" % j] for i in range(c["n"]) for j in range(i % 3)]
-        want = {"parse": want_parse, "result": want_result, "run": [["0"]]}
+        ids = list(range(c["n"])) + [c["n"] + 3 + j for j in range(c.get("pending", 0))]
+        want_parse = [[str(i), "0", str(i), str(i % 3)] for i in ids]
+        want_result = [[str(i), str(j), "m%d" % j] for i in ids for j in range(i % 3)]
+        want_item = [[str(i), "s%d" % i] for i in range(c["n"])] + \
+            [[str(c["n"] + 3 + j), "p%d" % j] for j in range(c.get("pending", 0))]
+        want = {"parse": want_parse, "result": want_result, "run": [["0"]], "item": want_item}
         for n in want:
             if r["mem"][n] != want[n]:
                 return "after process table %s holds %r in memory, expected %r" % (n, r["mem"][n], want[n])
